@@ -1,0 +1,5 @@
+//go:build !verif
+
+package metadb
+
+func vhook(string, any) {}
